@@ -85,3 +85,71 @@ func (v *FnV) applyAt(st *State, ord int, sc *Scope) {
 		}
 	}
 }
+
+// sexprKey is a structural key of a spec expression.
+func sexprKey(e *SExpr) string {
+	if e == nil {
+		return "_"
+	}
+	s := e.Op + ":" + e.Name + ":" + e.Lit + ":" + e.VType + "("
+	for _, a := range e.Args {
+		s += sexprKey(a) + ","
+	}
+	return s + ")"
+}
+
+func mentionsIdent(e *SExpr, name string) bool {
+	if e == nil {
+		return false
+	}
+	if e.Op == "ident" && e.Name == name {
+		return true
+	}
+	for _, a := range e.Args {
+		if mentionsIdent(a, name) {
+			return true
+		}
+	}
+	return false
+}
+
+// uniformIndexBase returns the sequence expression X if every index expression
+// whose index is exactly the identifier k has the same base X (not mentioning
+// k), and there is at least one such; otherwise nil.
+func uniformIndexBase(body *SExpr, k string) *SExpr {
+	var base *SExpr
+	ok := true
+	var walk func(e *SExpr)
+	walk = func(e *SExpr) {
+		if e == nil || !ok {
+			return
+		}
+		if (e.Op == "forall" || e.Op == "exists") && len(e.Vars) > 0 {
+			for _, v := range e.Vars {
+				if v == k {
+					return // shadowed
+				}
+			}
+		}
+		if e.Op == "index" && e.Args[1] != nil && e.Args[1].Op == "ident" && e.Args[1].Name == k {
+			if mentionsIdent(e.Args[0], k) {
+				ok = false
+				return
+			}
+			if base == nil {
+				base = e.Args[0]
+			} else if sexprKey(base) != sexprKey(e.Args[0]) {
+				ok = false
+				return
+			}
+		}
+		for _, a := range e.Args {
+			walk(a)
+		}
+	}
+	walk(body)
+	if !ok {
+		return nil
+	}
+	return base
+}
